@@ -163,6 +163,67 @@ let dump_state (st : state) : string =
   (match st.root with None -> Buffer.add_string b "nil" | Some t -> dump_tree b t);
   Buffer.contents b
 
+(* ---------- Coq terms of what was executed (kernel cross-check of the extraction) ---------- *)
+let recorded : (string, (kind * (op * out) list ref)) Hashtbl.t = Hashtbl.create 16
+let rec_order : string list ref = ref []
+let record (tid : string) (k : kind) (o : op) (x : out) : unit =
+  match Hashtbl.find_opt recorded tid with
+  | Some (_, l) -> l := (o, x) :: !l
+  | None -> Hashtbl.replace recorded tid (k, ref [(o, x)]); rec_order := tid :: !rec_order
+
+let cq_n (x : n) : string = "0x" ^ hex_of_n x
+let cq_z (x : z) : string =
+  match x with Z0 -> "0%Z" | Zpos p -> "(0x" ^ hex_of_n (Npos p) ^ ")%Z" | Zneg p -> "(- 0x" ^ hex_of_n (Npos p) ^ ")%Z"
+let cq_nat (x : nat) : string = string_of_int (int_of_nat x) ^ "%nat"
+let cq_list (f : 'a -> string) (l : 'a list) : string = "[" ^ String.concat "; " (List.map f l) ^ "]"
+let cq_bytes (l : n list) : string = cq_list (fun b -> string_of_int (int_of_n b)) l
+let cq_ftype (t : ftype) : string =
+  match t with TU w -> "TU " ^ cq_nat w | TS w -> "TS " ^ cq_nat w | TF w -> "TF " ^ cq_nat w | TStr -> "TStr"
+let cq_kind (k : kind) : string =
+  match k with
+  | KAlpha -> "KAlpha" | KCollation -> "KCollation"
+  | KUnsigned w -> "(KUnsigned " ^ cq_nat w ^ ")" | KSigned w -> "(KSigned " ^ cq_nat w ^ ")"
+  | KFloat w -> "(KFloat " ^ cq_nat w ^ ")"
+  | KCompound s -> "(KCompound " ^ cq_list cq_ftype s ^ ")"
+let cq_fval (v : fval) : string =
+  match v with
+  | VU x -> "VU " ^ cq_n x | VS x -> "VS " ^ cq_z x | VF x -> "VF " ^ cq_n x | VStr s -> "VStr " ^ cq_bytes s
+let cq_key (a : akey) : string =
+  match a with
+  | AB l -> "(AB " ^ cq_bytes l ^ ")" | AU x -> "(AU " ^ cq_n x ^ ")" | AS x -> "(AS " ^ cq_z x ^ ")"
+  | AF x -> "(AF " ^ cq_n x ^ ")" | AC (o, c) -> "(AC " ^ cq_bytes o ^ " " ^ cq_bytes c ^ ")"
+  | AT vs -> "(AT " ^ cq_list cq_fval vs ^ ")"
+let cq_stop (s : nat option) : string = match s with None -> "None" | Some m -> "(Some " ^ cq_nat m ^ ")"
+let cq_op (o : op) : string =
+  match o with
+  | Insert (a, v) -> "Insert " ^ cq_key a ^ " " ^ cq_z v
+  | Search a -> "Search " ^ cq_key a | Delete a -> "Delete " ^ cq_key a
+  | Minimum -> "Minimum" | Maximum -> "Maximum" | Size -> "Size"
+  | All s -> "All " ^ cq_stop s | Backward s -> "Backward " ^ cq_stop s
+  | TopK (n, s) -> "TopK " ^ cq_n n ^ " " ^ cq_stop s | BottomK (n, s) -> "BottomK " ^ cq_n n ^ " " ^ cq_stop s
+  | Range (a, b, s) -> "Range " ^ cq_key a ^ " " ^ cq_key b ^ " " ^ cq_stop s
+  | Prefix (p, s) -> "Prefix " ^ cq_key p ^ " " ^ cq_stop s
+let cq_out (x : out) : string =
+  match x with
+  | OUnit -> "OUnit" | OAbsent -> "OAbsent" | ONone -> "ONone" | OPanic -> "OPanic" | OFuel -> "OFuel"
+  | OFound v -> "OFound " ^ cq_z v | OBool b -> "OBool " ^ string_of_bool b
+  | OKV (a, v) -> "OKV " ^ cq_key a ^ " " ^ cq_z v | OSize z -> "OSize " ^ cq_z z
+  | OSeq (l, c) -> "OSeq " ^ cq_list (fun (a, v) -> "(" ^ cq_key a ^ ", " ^ cq_z v ^ ")") l ^ " " ^ cq_nat c
+
+let write_coq (path : string) : unit =
+  let oc = open_out path in
+  output_string oc "(* written by ocaml/driver: the operations the extracted model executed and the outputs it printed *)\n";
+  output_string oc "From GoArt Require Import Base.Bytes Model.Keys Model.Api Extract.EvalCheck.\nOpen Scope N_scope.\n";
+  let ids = List.rev !rec_order in
+  List.iteri (fun i tid ->
+      let (k, l) = Hashtbl.find recorded tid in
+      Printf.fprintf oc "Definition c%d : kind * list (op * out) := (%s,\n  [%s]).\n" i (cq_kind k)
+        (String.concat ";\n   " (List.rev_map (fun (o, x) -> "(" ^ cq_op o ^ ", " ^ cq_out x ^ ")") !l))) ids;
+  Printf.fprintf oc "Definition cases := [%s].\n" (String.concat "; " (List.mapi (fun i _ -> Printf.sprintf "c%d" i) ids));
+  output_string oc "Definition T := Eval vm_compute in total_ops cases.\nPrint T.\n";
+  output_string oc "Definition M := Eval vm_compute in mismatches cases 0.\nPrint M.\n";
+  close_out oc
+
 (* ---------- command loop ---------- *)
 let trees : (string, kind * state) Hashtbl.t = Hashtbl.create 16
 let nodes : (string, int rnode) Hashtbl.t = Hashtbl.create 16
@@ -188,6 +249,7 @@ let run_tree_op (tid : string) (tag : string) (mk : kind -> op) : string =
   let (k, st) = Hashtbl.find trees tid in
   let (st', o) = step k st (mk k) in
   Hashtbl.replace trees tid (k, st');
+  record tid k (mk k) o;
   show_out k tag o
 
 (* a sequence value ranged over once per stop in "s1/s2/..." *)
@@ -195,6 +257,7 @@ let run_seq_op (tid : string) (tag : string) (stops : string) (mk : kind -> nat 
   let (k, st) = Hashtbl.find trees tid in
   let pass stop =
     let (_, o) = step k st (mk k (parse_stop stop)) in
+    record tid k (mk k (parse_stop stop)) o;
     let s = show_out k tag o in
     (* strip "<tag> " *)
     String.sub s (String.length tag + 1) (String.length s - String.length tag - 1) in
@@ -280,4 +343,5 @@ let () =
        | Some s -> output_string oc s; output_char oc '\n'
      done
    with End_of_file -> ());
-  close_out oc
+  close_out oc;
+  if Array.length Sys.argv > 3 then write_coq Sys.argv.(3)
